@@ -424,6 +424,9 @@ HAND_LISTED = [
     ('2*[1,2]*[3,4]', 22.0), ('[1,2]*2*[3,4]', 22.0), ('[1,2]*[3,4]*2', 22.0), ('3*2*[1,2]*[3,4]', 66.0), ('x*[1,0]*[y,1]', None),
     ('[[1,2],[3,4]]*[1,1]*[1,1]', 10.0), ('2*[1,1]*[[1,2],[3,4]]*[1,1]', 20.0), ('[1,1]*[[1,2],[3,4]]*[1,1]/2', 5.0),
     ('-[1,2]*[3,4]', -11.0), ('2*[1,2]*[3,4]^1', None), ('[1,2]*[3,4]+1', 12.0), ('1+2*[1,2]*[3,4]', 23.0),
+    # a minus sign in front of a complex-typed value with zero imaginary part, then a branch cut: the principal value
+    ('(-i^4)^0.5', 1j), ('sqrt(-(i^4))', 1j), ('sqrt(-(z*conj(z)))', 5j), ('ln(-(i^4))', math.pi * 1j), ('(-(2+0*i))^0.5', math.sqrt(2) * 1j),
+    ('sqrt(-w)', math.sqrt(2) * 1j), ('ln(-w)', complex(math.log(2), math.pi)), ('(-w)^0.5', math.sqrt(2) * 1j),
     # quiet underflow is an ordinary value (zero or a denormal), in scalars, functions and arrays alike
     ('exp(-1000)', 0.0), ('1/(1+exp(-800))', 1.0), ('exp(-30^2)', 0.0), ('sin(1e-310)', 1e-310), ('1e-200*1e-200', 0.0), ('e^-1000', 0.0),
     ('2^-1080', 0.0), ('[1e-200,1]*1e-200', np.array([0.0, 1e-200])), ('[1e-160,1]*[1e-160,1]', 1.0),
@@ -439,7 +442,7 @@ def _allclose(got, want):
 
 def run_hand_listed(ctx):
     from mitxgraders.helpers.calc import evaluator, DEFAULT_FUNCTIONS, DEFAULT_VARIABLES
-    variables = dict(DEFAULT_VARIABLES, x=3.0, y=5.0)
+    variables = dict(DEFAULT_VARIABLES, x=3.0, y=5.0, z=3 + 4j, w=2 + 0j)
     for rep in range(ctx.pick(1, 3)):
         for s_, want in HAND_LISTED:
             if want is None:
@@ -461,6 +464,24 @@ def run_hand_listed(ctx):
                 ctx.violation('C03:hand_listed:warning', '%r emitted %r' % (s_, numeric[:2]), wit)
             elif not _allclose(out.value, want):
                 ctx.violation('C03:hand_listed:value', '%r = %r, expected %r' % (s_, out.value, want), wit)
+
+
+def run_after_metric_graders(ctx):
+    """Metric suffixes belong to the grader that asked for them: '5k' stays outside the grammar of every other grader."""
+    import mitxgraders as M
+    for i in range(ctx.pick(4, 40)):
+        with_suffix = M.FormulaGrader(answers='5k', metric_suffixes=True)
+        a = lib.call(ctx, with_suffix, None, '5000')
+        for g, s_ in ((M.NumericalGrader(answers='5000'), '5k'), (M.FormulaGrader(answers='2*x', variables=['x']), '2m*x*1000'),
+                      (M.MatrixGrader(answers='[2,1]'), '[2000m, 1]')):
+            out = lib.call(ctx, g, None, s_)
+            ctx.ev()
+            ctx.count('suffix_isolation_checks')
+            if a.returned and a.value['ok'] is not True:
+                ctx.violation('C03:suffix:metric_grader_rejects_value', repr(a.brief()), {'string': '5000'})
+            if out.returned:
+                ctx.violation('C03:suffix:metric_suffix_accepted_without_the_option', '%r was evaluated (%r) by a grader built without metric_suffixes'
+                              % (s_, out.value), {'string': s_, 'grader': type(g).__name__})
 
 
 def run_after_matrix_graders(ctx):
@@ -525,6 +546,7 @@ def run(ctx):
     run_hand_listed(ctx)
     run_literals(ctx)
     run_after_matrix_graders(ctx)
+    run_after_metric_graders(ctx)
     run_flat(ctx)
     run_random(ctx)
     if ctx.inconclusive:
